@@ -104,10 +104,10 @@ def one_case(ctx, k):
             ctx.violation("reference-format", f"reference run wrote {R1[0]} to ref1.fastq", case)
             return
 
-        def variant(label, argv, outs, expect_fmt="fastq", names_seqs_only=False, stdout_name=None, stdin_path=None):
+        def variant(label, argv, outs, expect_fmt="fastq", names_seqs_only=False, stdout_name=None, stdin_path=None, affinity=None):
             R1, R2 = ref_holder
             """outs: list of (path, which_mate or 'interleaved')."""
-            run = climon.run(d, argv, tag="v" + label.replace("/", "_").replace(" ", "_")[:40], trace=False, stdin_path=stdin_path)
+            run = climon.run(d, argv, tag="v" + label.replace("/", "_").replace(" ", "_")[:40], trace=False, stdin_path=stdin_path, affinity=affinity)
             ctx.case((str(base), fq1[:200], label))
             ctx.count("variant:" + label.split("=")[0])
             v = lambda kind, text: ctx.violation(kind, f"variant [{label}] argv={argv}: {text}", dict(case, variant=label, vargv=argv), facts=dict(variant=label.split("=")[0]), klass=label.split("=")[0] + kind)
@@ -222,6 +222,11 @@ def one_case(ctx, k):
         # --- cores
         argv = base + ["-j", "2", "--buffer-size", "1500", "-o", "j1.fastq"] + (["-p", "j2.fastq"] if paired else []) + ins
         variant("cores=2", argv, [("j1.fastq", 1)] + ([("j2.fastq", 2)] if paired else []))
+        # --- more cores requested than the process may use (a one-CPU container): still the same records
+        one_cpu = {sorted(os.sched_getaffinity(0))[k % len(os.sched_getaffinity(0))]}
+        ext1 = rng.choice([".fastq", ".fastq.gz", ".fasta"])
+        argv = base + ["-j", str(rng.choice([2, 3])), "-o", "a1" + ext1] + (["-p", "a2" + ext1] if paired else []) + ins
+        variant("cores>cpus", argv, [("a1" + ext1, 1)] + ([("a2" + ext1, 2)] if paired else []), expect_fmt="fasta" if ext1 == ".fasta" else "fastq", affinity=one_cpu)
         # --- stdout, with and without --fasta
         if not paired:
             variant("stdout", base + ins, [("-", 1)])
